@@ -371,7 +371,7 @@ impl Property for C20 {
     type Case = Case;
     const ID: &'static str = "C20";
     fn cases(tier: Tier) -> u64 {
-        tier.pick(20_000, 400_000)
+        tier.pick(100_000, 1_000_000)
     }
     fn strategy(_tier: Tier) -> BoxedStrategy<Case> {
         let payload = || proptest::collection::vec(any::<u8>(), 0..6);
